@@ -92,7 +92,7 @@ def install(interp):
         return [out]
 
     def h_probe(it, e, invals):
-        it.probes.append({"tag": e.params["tag"], "guard": it.guard(),
+        it.probes.append({"tag": e.params["tag"], "guard": it.guard(), "scan": list(it.scan_ctx),
                           "args": [a if is_sym(a) else np.asarray(a) for a in invals]})
         return list(invals)
 
